@@ -1,8 +1,217 @@
-//! C14 — see /verif/DESIGN.md §3.
-use vf_core::{Args, Ctx};
+//! C14 — integer sets, range sets and the sparse-bit-set codec act as
+//! mathematical sets. See /verif/DESIGN.md §3.
+//!
+//! Oracles: a brute-force `BTreeSet` + explicit-universe model (small domains)
+//! and an interval model (16/32-bit domains; validated against the brute-force
+//! one in lock-step on the small domains), compared with every observer after
+//! every operation; an independent transcription of the IFT specification's
+//! sparse-bit-set decoding algorithm.
+
+pub mod codec;
+pub mod domains;
+pub mod hist;
+pub mod model;
+pub mod rangeset;
+
+use codec::Codec;
+use domains::{Cont, Disc10, Disc53, Elem, CONT_TEN, DISC10};
+use font_types::{Fixed, GlyphId, GlyphId16, NameId, Tag};
+use hist::Runner;
+use model::Iv;
+use read_fonts::collections::IntSet;
+use std::any::Any;
+use vf_core::{Args, Ctx, PanicPolicy, Rng};
 
 pub const REPLAY: Option<fn(&mut Ctx, &Args, &serde_json::Value, Option<&[u8]>)> = None;
 
+fn rnd<T: Elem>(ctx: &mut Ctx, codec: &mut Codec, histories: usize, steps: usize) {
+    let mut r = Runner::new(ctx);
+    let mut cb = |r: &mut Runner, a: &IntSet<T>, m: &Iv, origin: &str| {
+        // codec round trip of the sets histories actually produced (u32 only, inclusive, bounded size)
+        if let Some(s) = (a as &dyn Any).downcast_ref::<IntSet<u32>>() {
+            if !s.is_inverted() && m.len() <= 20_000 {
+                codec.roundtrip(r.ctx, s, m, origin);
+            }
+        }
+    };
+    hist::random_histories::<T>(&mut r, histories, steps, &mut cb);
+}
+
 pub fn run(ctx: &mut Ctx, _args: &Args) {
-    ctx.rule = "stub".into();
+    ctx.policy = PanicPolicy::Any;
+    ctx.rule = "IntSet: a history step is non-trivial when the operation changed the membership of the set, combined two sets \
+                (union/intersect/subtract), inverted it or changed a mode; distinct = distinct (domain, operation, modes of both \
+                sets before and after, resulting set) tuples (at most 60000 recorded per shard). Codec: a round trip of a non-empty \
+                set, or a decode of arbitrary bytes that the specification algorithm accepts with a tree of >= 2 nodes; distinct = \
+                distinct (consumed bytes, bias, max). RangeSet: distinct resulting pairs of non-empty sets."
+        .into();
+    ctx.level = "exploration + exhaustive sub-spaces".into();
+    ctx.assumptions = vec![
+        "Supported tree heights are the implementation's limits (bf2:31, bf4:16, bf8:11, bf32:7); above them only absence of panics is required".into(),
+        "The specification decoder is a transcription from the IFT specification text made without network access; it is validated on the specification's examples 2-4".into(),
+        "Element iteration of sets with more than 96 (periodically 6000) members is windowed (both ends and after probe values); range iteration is complete up to 192 (periodically 100000) ranges".into(),
+        "Inverted IntSet<u32> values are not encoded (iteration over ~2^32 members); sets of up to 20000 members are".into(),
+        "Ord on IntSet is taken to be the lexicographic order of the ascending member sequences (as BTreeSet)".into(),
+    ];
+    let thorough = ctx.tier.is_thorough();
+    let t = ctx.tier;
+
+    // ---- reference decoder self-validation on the specification's examples
+    {
+        let ex2 = [0b00001110u8, 0b00100001, 0b00010001, 0b00000001, 0b00000100, 0b00000010, 0b00001000];
+        let ok2 = matches!(codec::ref_decode(&ex2, 0, u32::MAX), codec::RefOut::Ok{ref members, consumed: 7, ..} if *members == Iv::from_points([2, 33, 323]));
+        let ok3 = matches!(codec::ref_decode(&[0], 0, u32::MAX), codec::RefOut::Ok{ref members, consumed: 1, ..} if members.is_empty());
+        let ok4 = matches!(codec::ref_decode(&[0b00001101, 0b00000011, 0b00110001], 0, u32::MAX), codec::RefOut::Ok{ref members, consumed: 3, ..} if *members == Iv::from_range(0, 17));
+        if !(ok2 && ok3 && ok4) {
+            ctx.inconclusive(format!("reference sparse-bit-set decoder fails the specification examples: {} {} {}", ok2, ok3, ok4));
+            return;
+        }
+        ctx.count("codec:reference_decoder_spec_examples_ok", 3);
+    }
+
+    let mut codec = Codec::new(t.pick(2, 12));
+
+    // ---- 1. exhaustive operation sequences
+    {
+        let mut r = Runner::new(ctx);
+        hist::exhaustive::<Disc10>(&mut r, &DISC10, 4, "Disc10-len4");
+        hist::exhaustive::<Cont>(&mut r, &CONT_TEN, t.pick(3, 4), if thorough { "Cont1536-len4" } else { "Cont1536-len3" });
+    }
+    ctx.exhaustive = Some(true);
+    ctx.extra.insert(
+        "exhaustive_part".into(),
+        serde_json::json!("all operation sequences up to length 4 (Cont1536: 3 in quick) over a 48-operation alphabet on ten page-edge operands x {inclusive, inverted} start; all 2-byte (thorough: 3-byte) strings x bias/max pairs; all subsets of 0..16 x 4 branch factors; all <=3-insert RangeSet sequences over 0..=6"),
+    );
+
+    // ---- 2. random long histories
+    let steps = 10_000;
+    let k = t.pick(1usize, 8);
+    rnd::<u32>(ctx, &mut codec, 48 * k, steps);
+    rnd::<GlyphId>(ctx, &mut codec, 16 * k, steps);
+    rnd::<Tag>(ctx, &mut codec, 16 * k, steps);
+    rnd::<u16>(ctx, &mut codec, 32 * k, steps);
+    rnd::<GlyphId16>(ctx, &mut codec, 16 * k, steps);
+    rnd::<NameId>(ctx, &mut codec, 16 * k, steps);
+    rnd::<u8>(ctx, &mut codec, 32 * k, steps);
+    rnd::<Cont>(ctx, &mut codec, 32 * k, steps);
+    rnd::<Disc53>(ctx, &mut codec, 32 * k, steps);
+    rnd::<Disc10>(ctx, &mut codec, 16 * k, steps);
+
+    // ---- 3. codec
+    // 3a. all subsets of 0..16
+    for bits in 0..65536u32 {
+        if !ctx.mine(bits as usize) {
+            continue;
+        }
+        let m = Iv::from_points((0..16).filter(|i| bits >> i & 1 == 1));
+        let s: IntSet<u32> = m.iter().collect();
+        codec.roundtrip(ctx, &s, &m, &format!("subset16:{:04x}", bits));
+    }
+    // 3b. generated corner-case sets, and mutations of their encodings
+    let n_sets = t.pick(4_000usize, 60_000);
+    for i in 0..n_sets {
+        if !ctx.mine(i) {
+            continue;
+        }
+        let mut rng = Rng::derive(ctx.seed, "c14-codec-set", i as u64);
+        let m = codec::gen_codec_set(&mut rng);
+        let s = codec::build_set(&m, &mut rng);
+        codec.roundtrip(ctx, &s, &m, &format!("gen:seed{}:{}", ctx.seed, i));
+        use read_fonts::collections::int_set::sparse_bit_set::to_sparse_bit_set_with_bf as enc_bf;
+        let which = rng.below(4);
+        let Ok(enc) = vf_core::guard(|| match which {
+            0 => enc_bf::<2>(&s),
+            1 => enc_bf::<4>(&s),
+            2 => enc_bf::<8>(&s),
+            _ => enc_bf::<32>(&s),
+        }) else {
+            continue; // already reported by roundtrip
+        };
+        for _ in 0..6 {
+            let mut e = enc.clone();
+            codec::mutate(&mut rng, &mut e);
+            let (bias, max) = codec::random_bias_max(&mut rng);
+            codec.decode_arbitrary(ctx, &e, bias, max, "mutated-encoding");
+        }
+    }
+    // 3c. all strings of length 0, 1, 2 (thorough: 3) x bias/max pairs
+    if ctx.mine(0) {
+        for (bias, max) in codec::BIAS_MAX {
+            codec.decode_arbitrary(ctx, &[], bias, max, "len0");
+            for b in 0..=255u8 {
+                codec.decode_arbitrary(ctx, &[b], bias, max, "len1-exhaustive");
+            }
+        }
+    }
+    for v in 0..65536u32 {
+        if !ctx.mine(v as usize) {
+            continue;
+        }
+        let bytes = [(v >> 8) as u8, v as u8];
+        for (bias, max) in codec::BIAS_MAX {
+            codec.decode_arbitrary(ctx, &bytes, bias, max, "len2-exhaustive");
+        }
+    }
+    ctx.count("codec:exhaustive_len2_strings", if ctx.shard.0 == 0 { 65536 } else { 0 });
+    if thorough {
+        for v in 0..(1u32 << 24) {
+            if !ctx.mine((v >> 4) as usize) {
+                continue;
+            }
+            let bytes = [(v >> 16) as u8, (v >> 8) as u8, v as u8];
+            for (bias, max) in [(0, u32::MAX), (5, 20), (u32::MAX - 1, u32::MAX)] {
+                codec.decode_arbitrary(ctx, &bytes, bias, max, "len3-exhaustive");
+            }
+        }
+        ctx.count("codec:exhaustive_len3_strings", if ctx.shard.0 == 0 { 1 << 24 } else { 0 });
+    }
+    // 3d. random strings and random complete trees (+ mutations)
+    let n_rand = t.pick(30_000usize, 400_000);
+    {
+        let mut rng = Rng::derive(ctx.seed, "c14-codec-bytes", ctx.shard.0 as u64);
+        for _ in 0..n_rand {
+            let len = if rng.chance(1, 20) { rng.usize(300) } else { rng.usize(24) };
+            let mut data = rng.bytes(len);
+            // thin out the bits so that trees get deep instead of wide
+            match rng.below(4) {
+                0 => {}
+                1 => data.iter_mut().for_each(|b| *b &= rng.u32() as u8),
+                2 => data.iter_mut().for_each(|b| *b &= (rng.u32() & rng.u32()) as u8),
+                _ => data.iter_mut().for_each(|b| *b = 1u8.checked_shl(rng.below(12) as u32).unwrap_or(0)),
+            }
+            if !data.is_empty() && rng.chance(3, 4) {
+                let code = rng.below(4) as u8;
+                let h = rng.below(codec::supported_height(codec::BF[code as usize]) as u64 + 2) as u8;
+                data[0] = code | (h << 2);
+            }
+            let (bias, max) = codec::random_bias_max(&mut rng);
+            codec.decode_arbitrary(ctx, &data, bias, max, "random-bytes");
+        }
+        for _ in 0..n_rand {
+            let mut data = codec::gen_tree_bytes(&mut rng);
+            let (bias, max) = codec::random_bias_max(&mut rng);
+            codec.decode_arbitrary(ctx, &data, bias, max, "random-tree");
+            codec::mutate(&mut rng, &mut data);
+            codec.decode_arbitrary(ctx, &data, bias, max, "mutated-tree");
+        }
+    }
+    codec.flush(ctx);
+
+    // ---- 4. RangeSet
+    {
+        let mut rs = rangeset::RsRunner::new();
+        rangeset::exhaustive::<u32>(&mut rs, ctx, 0);
+        rangeset::exhaustive::<u32>(&mut rs, ctx, u32::MAX - 6);
+        rangeset::exhaustive::<u16>(&mut rs, ctx, 0xFFFF - 6);
+        rangeset::exhaustive::<Fixed>(&mut rs, ctx, u32::MAX - 6);
+        rangeset::exhaustive::<Fixed>(&mut rs, ctx, 0x8000_0000 - 3);
+        let h = t.pick(320usize, 4000);
+        rangeset::random::<u32>(&mut rs, ctx, h, 120);
+        rangeset::random::<u16>(&mut rs, ctx, h, 120);
+        rangeset::random::<Fixed>(&mut rs, ctx, h, 120);
+        rs.tally.flush(ctx, "");
+    }
+
+    ctx.sample(serde_json::json!({"kind": "exhaustive history", "example": "start A=all (inverted), B={511,1023}; ops: I511-1024 W U V -> all observers vs model after each"}));
+    ctx.sample(serde_json::json!({"kind": "codec", "example": "bytes 0d 03 31 (bf4, height 3) decode to 0..=17 with 0 unread bytes under library and specification algorithm"}));
 }
